@@ -108,13 +108,41 @@ def is_crash(v):
 # ------------------------------------------------------------------------------------------------
 # Coq side
 
-def forbidden_scan():
-    """fail the build when a forbidden vernacular appears anywhere in the development"""
+def closure_files(pid):
+    """the .v files Properties/<pid>.v and extract/<pid>.v depend on (transitively, via `From Verif Require Import/Export`)"""
+    index = {}
+    for d in ('Base', 'Spec', 'Model', 'Proofs', 'Properties', 'Gen'):
+        dd = os.path.join(THEORIES, d)
+        if os.path.isdir(dd):
+            for f in os.listdir(dd):
+                if f.endswith('.v'):
+                    index[f[:-2]] = os.path.join(dd, f)
+    todo = [os.path.join(THEORIES, 'Properties', pid + '.v'), os.path.join(COQ, 'extract', pid + '.v')]
+    seen = []
+    while todo:
+        p = todo.pop()
+        if p in seen or not os.path.exists(p):
+            continue
+        seen.append(p)
+        txt = open(p, encoding='utf8').read()
+        for d in re.findall(r'From\s+Verif\s+Require\s+(?:Import|Export)\s+([^.]*)\.', txt):
+            for n in d.split():
+                if n in index:
+                    todo.append(index[n])
+    return seen
+
+
+def forbidden_scan(pid=None):
+    """fail the build when a forbidden vernacular appears in the development this property depends on
+    (pid=None: anywhere under coq/ -- used by the thorough tier and by setup)"""
     bad = []
-    for root, _, files in os.walk(COQ):
-        for f in files:
-            if f.endswith('.v'):
-                p = os.path.join(root, f)
+    if pid is not None:
+        paths = closure_files(pid)
+    else:
+        paths = [os.path.join(root, f) for root, _, files in os.walk(COQ) for f in files if f.endswith('.v')]
+    for p in paths:
+        if True:
+            if True:
                 txt = open(p, encoding='utf8').read()
                 # strip comments (nested) before scanning
                 out, depth, i = [], 0, 0
@@ -470,7 +498,7 @@ def main(argv):
     broken = []       # names of proof obligations / correspondences that no longer check
 
     # 0. hygiene
-    bad = forbidden_scan()
+    bad = forbidden_scan(pid if args.tier == 'quick' else None)
     if bad:
         broken.append('forbidden vernacular present: ' + '; '.join(bad[:5]))
 
